@@ -64,14 +64,20 @@ registry.register("C03", {
     "components": [
         {"name": "st", "gen": sendlib.gen_st, "fixed": sendlib.fixed_st, "quick": 8000, "thorough": 300000,
          "valid": sendlib.valid, "nontrivial": sendlib.nontrivial_st},
+        {"name": "sm", "gen": sendlib.gen_sm, "fixed": sendlib.fixed_sm, "quick": 6000, "thorough": 200000, "model": False,
+         "valid": sendlib.valid, "nontrivial": sendlib.nontrivial, "histogram": sendlib.histogram},
         {"name": "ss", "gen": sendlib.gen_ss, "fixed": sendlib.fixed_ss, "quick": 12000, "thorough": 400000,
          "valid": sendlib.valid, "nontrivial": sendlib.nontrivial, "histogram": sendlib.histogram},
         {"name": "ssr", "gen": sendlib.gen_ss, "fixed": lambda tier: [[1, 1000, 0, 0, 10, 1, 0, 100, 5, 1, 200, 0, 0, 3, 0, 7, 5, 1, 200, 0, 0]],
          "quick": 1500, "thorough": 20000, "model": False,
          "valid": sendlib.valid, "nontrivial": lambda case, out: sendlib.count_frames(case, out).get(2, 0) >= 1},
     ],
-    "rule": "TODO",
-    "assumptions": [],
-    "trusted_base": [],
-    "explanation": "TODO",
+    "rule": 'cases: corpus + boundary families (windows 0/1/2 with credit raised by one; stream and connection limit L with writes of L-1, L, L+1; loss and retransmission at six different capacities followed by FIN; two streams competing for a 50 byte connection window with out-of-order MAX_DATA; reset after FIN; STOP_SENDING before any data; close limiter doubling up to the u8 saturation; stream limits 0/1/2 raised by one and lowered again) + seeded random operation sequences (1-45 ops over 1-4 streams sharing one connection flow controller: push 0..4095 position-keyed bytes, finish, reset, STOP_SENDING, transmit one packet of capacity 0..65535 under all four constraints and modes, ack/loss of packet number ranges, MAX_STREAM_DATA / MAX_DATA / MAX_STREAMS incl. non-increasing values). A stream case is non-trivial when at least one STREAM frame was emitted, a stream-opening case when at least one stream was opened and one open was refused, a close case when at least two close packets were sent',
+    "assumptions": [
+        "same model abstractions as C12 (interval-set level DataSender, canonical IntervalSet, timer-less PeriodicSync)",
+        "packet capacity < 65536 (UDP): used in the proof that a FIN-only frame is never written before all data was sent",
+        "case integers are in [0, 2^62]",
+    ],
+    "trusted_base": ["no axioms: Print Assumptions reports 'Closed under the global context' for every C03 theorem", "hook drivers verif_hooks/{data_sender,streams}.rs"],
+    "explanation": "Coq theorem C03_ss_judge_run: for every operation sequence the model of SendStreams sharing the connection flow controller emits only frames accepted by the limit monitor (STREAM end <= largest MAX_STREAM_DATA, sum of stream lengths <= largest MAX_DATA, both recomputed from the operations alone); the same extracted monitor judges every output of the real code; the RESET_STREAM-vs-stream-limit clause is refuted on the model and reproduced on the real code (known finding); stream opening vs MAX_STREAMS on the real stream manager",
 })
